@@ -325,7 +325,7 @@ pub fn make_case(prop: &str, seed: u64, run: u64, stats: &mut Stats) -> Option<C
                 stepping,
                 feat,
                 layout: if r.chance(50) { Layout::swarm(&mut r) } else { Layout::plain() },
-                body: (1, *r.pick(&[3, 6, 12, 25])),
+                body: (if r.chance(6) { 0 } else { 1 }, *r.pick(&[0, 3, 6, 12, 25])),
                 policy,
                 faulted,
                 alt_plain_ref: true,
